@@ -324,8 +324,11 @@ impl SeqModel for C02 {
                 n.store = env.store();
                 _ = n.model.insert(label.clone(), model_tree("r", &tree));
                 n.nbackups += 1;
-                if matches!(a, Act::BackupStale(_)) {
-                    // does the new snapshot depend on blobs that are only in marked packs now?
+                // A snapshot written through a stale handle may depend on blobs that are only in
+                // marked packs now; so may a later regular backup whose parent is such a snapshot
+                // (a tree equal to the parent's is not written again): both are brought back by the
+                // next prune, which is what the invariant after that prune demands.
+                if matches!(a, Act::BackupStale(_)) || !s.pending.is_empty() {
                     let ok = independent_read(&self.raw, &n.store)
                         .ok()
                         .and_then(|m| m.get(&label).cloned())
